@@ -225,7 +225,12 @@ fn gen_train_in(rng: &mut Rng, bare_refs: bool) -> TrainIn {
     if rng.chance(1, 2) {
         // two rows with the same features (they must share their connection classes)
         let c = seed[0].1.clone();
-        seed.push((vec![0x62, 0x61], c));
+        seed.push((vec![0x62, 0x61], c.clone()));
+        if rng.chance(1, 2) {
+            // ... and one more whose first character lies in the other category (ALPHA above, DEFAULT here):
+            // same feature string, different %t, so a different unigram feature set
+            seed.push((vec![0x6771, 0x61], c));
+        }
     }
     let mut unk = vec![];
     for cat in 0..cats.len() {
